@@ -405,7 +405,9 @@ Top:
 	return &n
 }
 
-var spaces = []byte{'\n'}
+// spaces is a newline followed by spaces. It is shared by all printers and
+// never changed.
+var spaces = append([]byte{'\n'}, bytes.Repeat([]byte{' '}, 255)...)
 
 func (p *Printer) appendTree(b []byte, n *node, offset, closes int) []byte {
 	if 0 < len(n.special) {
@@ -429,8 +431,9 @@ func (p *Printer) appendTree(b []byte, n *node, offset, closes int) []byte {
 		if off+n.elements[0].size+n.elements[1].size+t+1 <= int(p.RightMargin) {
 			off += n.elements[0].size + 1
 		}
-		if len(spaces)-1 < off {
-			spaces = append(spaces, bytes.Repeat([]byte{' '}, off-len(spaces)+1)...)
+		indent := spaces
+		if len(indent)-1 < off {
+			indent = append([]byte{'\n'}, bytes.Repeat([]byte{' '}, off)...)
 		}
 		pos := offset + 1
 		for i, e := range n.elements {
@@ -452,7 +455,7 @@ func (p *Printer) appendTree(b []byte, n *node, offset, closes int) []byte {
 					b = append(b, " .."...)
 					break
 				}
-				b = append(b, spaces[:off+1]...)
+				b = append(b, indent[:off+1]...)
 				b = p.appendTree(b, e, off, t)
 				pos = off + e.size + 1
 			}
